@@ -1,0 +1,28 @@
+//! Verification hook (compiled only with `--cfg grafeodb_grafeo_verif`).
+//!
+//! Multi-step operations call [`yield_point`] between their critical sections. An
+//! out-of-tree harness installs a per-thread callback that parks the thread there
+//! until a scheduler lets it continue, so that one chosen interleaving of several
+//! threads can be executed deterministically. Without an installed callback the
+//! call does nothing.
+
+use std::cell::RefCell;
+
+thread_local! {
+    static HOOK: RefCell<Option<Box<dyn Fn(&'static str)>>> = const { RefCell::new(None) };
+}
+
+/// Installs (or clears) the callback of the calling thread.
+pub fn set_yield_hook(hook: Option<Box<dyn Fn(&'static str)>>) {
+    HOOK.with(|h| *h.borrow_mut() = hook);
+}
+
+/// Marks a point between two critical sections of a multi-step operation.
+#[inline]
+pub fn yield_point(name: &'static str) {
+    HOOK.with(|h| {
+        if let Some(f) = h.borrow().as_ref() {
+            f(name);
+        }
+    });
+}
